@@ -34,6 +34,9 @@ AUDITED = os.path.join(os.path.dirname(os.path.abspath(__file__)), 'c17_modelled
 # methods whose control flow the Lean model follows line by line (execImpl / step / onFuncCall / onInteger / onFloat / onFactor / allowString / cat / catSafe)
 MODELLED = ['__init__', '_build_procedure', 'exec', '_op_bin_each', '_allow_string', '_joins_escape', '_cat', 'on_argument', 'on_argument_label',
 	'on_var', 'on_relay', 'on_func_call', 'on_integer', 'on_float', 'on_string', 'on_factor', 'on_group', 'on_terminal', 'on_empty', 'on_fallback']
+# the member lookup both observation points go through (evaluator.py on_relay, py2cpp.py on_relay): `env.members.lookup key` in the model — by EXACT name
+ENUM_SOURCE = 'rogw/tranp/syntax/node/definition/statement_compound.py'
+ENUM_LOOKUP_KEY = 'Enum.var_value'
 # every handler the model has a case for (the six chain handlers through `chainHandlers`)
 MODELLED_HANDLERS = ['on_and_bitwise', 'on_argument', 'on_argument_label', 'on_empty', 'on_factor', 'on_fallback', 'on_float', 'on_func_call', 'on_group',
 	'on_integer', 'on_or_bitwise', 'on_relay', 'on_shift_bitwise', 'on_string', 'on_sum', 'on_term', 'on_terminal', 'on_var', 'on_xor_bitwise']
@@ -200,6 +203,13 @@ def modelled_sources() -> dict[str, str]:
 		if name not in fns:
 			raise Unrecognised(f'modelled method {name} is missing')
 		out[name] = ast.unparse(_strip_doc(copy.deepcopy(fns[name])))
+	with open(os.path.join(REPO, ENUM_SOURCE), encoding='utf-8') as f:
+		tree = ast.parse(f.read())
+	enum_cls = next((n for n in tree.body if isinstance(n, ast.ClassDef) and n.name == 'Enum'), None)
+	lookup = next((n for n in (enum_cls.body if enum_cls else []) if isinstance(n, ast.FunctionDef) and n.name == 'var_value'), None)
+	if lookup is None:
+		raise Unrecognised(f'{ENUM_SOURCE}: Enum.var_value not found')
+	out[ENUM_LOOKUP_KEY] = ast.unparse(_strip_doc(copy.deepcopy(lookup)))
 	return out
 
 
@@ -211,11 +221,11 @@ def check_audited(handlers: list[str]) -> int:
 	with open(AUDITED, encoding='utf-8') as f:
 		audited = json.load(f)
 	current = modelled_sources()
-	audited = {k: v for k, v in audited.items() if '.' not in k}  # `Py2Cpp.on_relay[value]` is checked by gen_literalize
+	audited = {k: v for k, v in audited.items() if not k.startswith('Py2Cpp.')}  # `Py2Cpp.on_relay[value]` is checked by gen_literalize
 	for key in sorted(set(audited) | set(current)):
 		if audited.get(key) != current.get(key):
 			diff = '\n'.join(difflib.unified_diff((audited.get(key) or '').splitlines(), (current.get(key) or '').splitlines(), 'modelled', 'source', lineterm='', n=1))
-			raise Unrecognised(f'LiteralEvaluator.{key}: the source differs from the text Model/Evaluator.lean was written against:\n{diff}')
+			raise Unrecognised(f'{key if "." in key else "LiteralEvaluator." + key}: the source differs from the text Model/Evaluator.lean was written against:\n{diff}')
 	return len(current)
 
 
